@@ -239,12 +239,29 @@ Global Instance sroot_eq_dec : EqDecision sroot. Proof. solve_decision. Defined.
 Global Instance croot_eq_dec : EqDecision croot. Proof. solve_decision. Defined.
 
 Definition key := N.
-Inductive msg := MRev (hk rk : key) (v : view croot) | MOther (n : N).   (* ContractSigHash is injective *)
+Global Instance prices_eq_dec : EqDecision prices. Proof. solve_decision. Defined.
+(* ContractSigHash and HostPrices.SigHash are injective and domain separated *)
+Inductive msg := MRev (hk rk : key) (v : view croot) | MPrices (p : prices) | MOther (n : N).
 Inductive sig := Sig (k : key) (m : msg) | SigX (n : N).
 Global Instance view_eq_dec : EqDecision (view croot). Proof. solve_decision. Defined.
 Global Instance msg_eq_dec : EqDecision msg. Proof. solve_decision. Defined.
 Global Instance sig_eq_dec : EqDecision sig. Proof. solve_decision. Defined.
 Definition verify_sig (k : key) (m : msg) (s : sig) : bool := bool_decide (s = Sig k m).
+
+(** A price table as the caller holds it: the numbers, the signature on them and
+    whether it is still unexpired. HostPrices.Validate (core validation.go:17-25)
+    against a key [k]. *)
+Record signed_prices := mk_signed_prices { sp_prices : prices; sp_sig : sig; sp_fresh : bool }.
+Definition prices_valid (k : key) (sp : signed_prices) : bool :=
+  sp_fresh sp && verify_sig k (MPrices (sp_prices sp)) (sp_sig sp).
+
+(** The transport: every revising client function below takes the authenticated
+    key [t] of the peer on the other end of the transport (TransportClient.PeerKey).
+    rpc.go never consults it in these functions: the price table (RPCSectorRoots,
+    rpc.go:1026) and the host signature on the revision (rpc.go:655, 718, 760,
+    848, 1041) are checked against contract.Revision.HostPublicKey = [c_hk],
+    whoever the peer is. [t] is therefore an unused argument, kept so that the
+    theorems quantify over it explicitly. *)
 
 (** the renter's view of a contract, rpc.go:179-184 *)
 Record contract := mk_contract { c_view : view croot; c_hk : key; c_rk : key; c_rsig : sig; c_hsig : sig }.
@@ -361,8 +378,10 @@ Definition num_sectors_up (c : contract) : N := (v_filesize (c_view c) + sector_
 
 (** RPCSectorRoots *)
 Record roots_resp := mk_roots_resp { or_pre : list sroot; or_post : list sroot; or_roots : list sroot; or_sig : sig }.
-Definition client_roots (c : contract) (p : prices) (auth : bool) (offset length : N) (r : option roots_resp)
+Definition client_roots (t : key) (c : contract) (sp : signed_prices) (offset length : N) (r : option roots_resp)
   : result (rev_result * list sroot) :=
+  let p := sp_prices sp in
+  let auth := prices_valid (c_hk c) sp in                   (* 1026: the contract's key, not [t] *)
   match r with
   | None => match roots_decide (c_view c) p auth offset length false 0 false (fun _ => false) with
             | Ok (v', u) => Ok (signed_result c v' (SigX 0) u, []) | Err => Err end
@@ -382,7 +401,7 @@ Fixpoint pick {A} (roots : list A) (accepted : list bool) : list A :=
   | _, _ => []
   end.
 Record append_resp := mk_append_resp { ar_accepted : list bool; ar_old : list sroot; ar_newroot : croot }.
-Definition client_append (c : contract) (p : prices) (roots : list sroot) (r1 : option append_resp) (r3 : option sig)
+Definition client_append (t : key) (c : contract) (p : prices) (roots : list sroot) (r1 : option append_resp) (r3 : option sig)
   : result (rev_result * list sroot) :=
   match r1 with
   | None => match append_decide (c_view c) p (len roots) false 0 0 (CX 0) false false (fun _ => false) with
@@ -400,7 +419,7 @@ Definition client_append (c : contract) (p : prices) (roots : list sroot) (r1 : 
 
 (** RPCFreeSectors *)
 Record free_resp := mk_free_resp { fr_old : list sroot; fr_newroot : croot }.
-Definition client_free (c : contract) (p : prices) (idxs : list N) (r1 : option free_resp) (r3 : option sig)
+Definition client_free (t : key) (c : contract) (p : prices) (idxs : list N) (r1 : option free_resp) (r3 : option sig)
   : result rev_result :=
   let norm := normalize idxs in
   match r1 with
@@ -418,7 +437,7 @@ Definition client_free (c : contract) (p : prices) (idxs : list N) (r1 : option 
 
 (** RPCFundAccounts: deposits are (account, amount), account 0 is the zero account *)
 Record fund_resp := mk_fund_resp { fd_balances : list N; fd_sig : sig }.
-Definition client_fund (c : contract) (deposits : list (N * N)) (r : option fund_resp)
+Definition client_fund (t : key) (c : contract) (deposits : list (N * N)) (r : option fund_resp)
   : result (rev_result * list (N * N)) :=
   let amounts := deposits.*2 in
   let accts_ok := negb (existsb (N.eqb 0) (deposits.*1)) in
@@ -433,7 +452,7 @@ Definition client_fund (c : contract) (deposits : list (N * N)) (r : option fund
   end.
 
 (** RPCReplenishAccounts: the response lists (account, amount) *)
-Definition client_replenish (c : contract) (accounts : list N) (target : N) (r1 : option (list (N * N))) (r3 : option sig)
+Definition client_replenish (t : key) (c : contract) (accounts : list N) (target : N) (r1 : option (list (N * N))) (r3 : option sig)
   : result (rev_result * list (N * N)) :=
   let na := if existsb (N.eqb 0) accounts then 0 else len accounts in   (* an empty account fails req.Validate like no account *)
   match r1 with
